@@ -186,6 +186,7 @@ def container_cases(thorough=False):
                     out.append(('c', ci, 'rep', ei, form, var))
             out.append(('c', ci, 'del', 0, 'src', var))
             out.append(('c', ci, 'two', 0, 'src', var))       # two elements at once (one=False), every span
+            out.append(('c', ci, 'xfer', 0, 'fst', var))      # a slice CUT from a twin tree is put into every position
     return out
 
 
@@ -217,6 +218,8 @@ def block_cases():
         for layout in ('lines', 'oneline', 'joined'):
             for si, ti, li in itertools.product(range(len(STMTS)), range(len(TRAILS)), range(len(LAST_TRAILS))):
                 out.append(('b', bi, layout, si, ti, li))
+                if si == 0:
+                    out.append(('b', bi, layout, si, ti, li, 'mb'))
     return out
 
 
@@ -260,6 +263,42 @@ def run_case(case):
             n = len(getattr(_find(FST(src, 'exec'), cls), field))
         except Exception as e:
             return [{'case': case, 'setup_error': repr(e)[:120]}]
+        if op == 'xfer':
+            # every span [i:j) is cut from a twin of the same source (the donor must stay consistent: its tree is judged too),
+            # the cut piece (an FST with positions computed on the get path) is put at every position of a fresh target
+            for i in range(n + 1):
+                for j in range(i + 1, n + 1):
+                    for k in sorted({0, n, i}):
+                        donor = FST(src, 'exec')
+                        root = FST(src, 'exec')
+                        rec = {'case': list(case), 'src': src, 'cls': cls, 'field': field, 'op': 'xfer', 'elem': f'cut[{i}:{j}]', 'start': k, 'stop': k}
+                        try:
+                            with FST.options(norm=True):
+                                piece = _find(donor, cls).get_slice(i, j, field, cut=True)
+                        except Exception as e:
+                            rec['raised'] = 'cut:' + type(e).__name__
+                            res.append(rec)
+                            break
+                        d = _judge(donor)
+                        if d:
+                            rec['after'] = donor.src
+                            rec['fail'] = d
+                            rec['op'] = 'xfer-donor'
+                            res.append(rec)
+                            break
+                        try:
+                            with FST.options(norm=True):
+                                _find(root, cls).put_slice(piece, k, k, field)
+                        except Exception as e:
+                            rec['raised'] = type(e).__name__
+                            res.append(rec)
+                            continue
+                        d = _judge(root)
+                        rec['after'] = root.src
+                        if d:
+                            rec['fail'] = d
+                        res.append(rec)
+            return res
         if op == 'ins':
             spans = [(i, i) for i in range(n + 1)]
         elif op == 'two':
@@ -325,8 +364,10 @@ def run_case(case):
                     if c is None:
                         break
         return res
-    _, bi, layout, si, ti, li = case
+    _, bi, layout, si, ti, li = case[:6]
     src = block_src(bi, layout, si, ti, li)
+    if src is not None and len(case) > 6:
+        src = mb(src)
     if src is None:
         return res
     pre, ind, suf, cls, field = BLOCKS[bi]
@@ -517,7 +558,7 @@ MOVE_OPS = ['cut-append', 'copy-append', 'cut-insert0', 'copy-replace', 'cut-put
 
 
 def move_cases():
-    return [('m', si, hi) for si in range(len(MOVE_STMTS)) for hi in range(len(MOVE_SHAPES))]
+    return [('m', si, hi) + v for si in range(len(MOVE_STMTS)) for hi in range(len(MOVE_SHAPES)) for v in ((), ('mb',))]
 
 
 def _indent_stmt(stmt, ind):
@@ -544,11 +585,15 @@ def _in_literal(stmt, lineno):
 
 def run_move_case(case):
     from fst import FST
-    _, si, hi = case
+    _, si, hi = case[:3]
     shape, srcp, dstp = MOVE_SHAPES[hi]
     ind = shape.split('{S}')[0].rsplit('\n', 1)[-1]
     src = shape.replace('{S}', _indent_stmt(MOVE_STMTS[si], ind))
     res = []
+    if len(case) > 3:
+        src = mb(src)
+        if src is None:
+            return res
     try:
         ref = ast.parse(src)
     except SyntaxError:
@@ -648,7 +693,7 @@ def run_move_case(case):
 
 def move_signature(rec):
     cls = 'no-parse' if rec['fail'].startswith('source no longer parses') else ('structure' if rec['fail'].startswith('structure') else 'positions')
-    return f"C01|move|{rec['cls']}.{rec['field']}|{rec['op']}/{rec['case'][1]}.{rec['case'][2]}|{cls}"
+    return f"C01|move|{rec['cls']}.{rec['field']}|{rec['op']}/{rec['case'][1]}.{rec['case'][2]}{'m' if len(rec['case']) > 3 else ''}|{cls}"
 
 
 def replay_move(rec):
